@@ -60,7 +60,6 @@ def handleG (ws : List String) : Option String := do
   let c0 ← parseOptRle (← field kvs "c0")
   let a ← parseRle (← field kvs "a")
   let b ← parseRle (← field kvs "b")
-  if a.length != m * k || b.length != k * n then none
   let preA := pre % 2 == 1
   let preB := pre / 2 % 2 == 1
   let kern := if kernS == "generic" then Kern.generic else Kern.simd
@@ -76,7 +75,11 @@ def handleG (ws : List String) : Option String := do
   let cb ← (← field kvs "cb").toNat?
   let r : Request := { kern, sat, kc, gemv := isGemv, bKind, lanes, cb, preA, preB, m, n, k,
                        za, zb, c0, a, b }
-  return showRle (gemm r)
+  match gemmChecked r (m * n) with
+  | .ok out => return showRle out
+  | .error .kSizeMismatch => return "err:KSizeMismatch"
+  | .error .wrongQuantParamSize => return "err:WrongQuantParamSize"
+  | .error .outputSizeMismatch => return "err:OutputSizeMismatch"
 
 /-! ### Operator-level lines -/
 
